@@ -215,6 +215,7 @@ func procCPU(pid int, deep bool) (cpu time.Duration, busy bool, ok bool) {
 //   - has used more CPU time than budget since the job began (a loop, or work far beyond what any case needs), or
 //   - has made no CPU progress and had no runnable thread for p.opt.IdleWall of wall-clock time (blocked: deadlock, sleep), or
 //   - reaches the wall-clock cap (why = "wall-cap"; inconclusive by itself).
+//
 // CPU time and thread states do not depend on how busy the machine is; wall-clock time alone never decides.
 func (w *worker) exec1(job *proto.Job, budget, idleWall, hardCap time.Duration) (res *proto.Result, err error, timedOut bool, why string) {
 	data, err := json.Marshal(job)
